@@ -36,8 +36,9 @@ type scenario struct {
 	Observers   int     `json:"observers"`
 	Acquire     string  `json:"acquire"` // try | lock | timeout
 	DeathOp     int     `json:"death_after_op,omitempty"`
-	Takeover    bool    `json:"holder_acquires_by_stale_takeover,omitempty"` // live cases: the holder takes over a dead predecessor's stale lock (override)
-	Previous    int     `json:"previous_holders"`                            // idle earlier holders of the same lock id still alive
+	Takeover    bool    `json:"holder_acquires_by_stale_takeover,omitempty"`              // live cases: the holder takes over a dead predecessor's stale lock (override)
+	Sibling     int     `json:"failed_attempts_on_the_holders_own_lock_object,omitempty"` // live cases: other goroutines of the holder's process try to acquire through the SAME lock object while it is held (and fail)
+	Previous    int     `json:"previous_holders"`                                         // idle earlier holders of the same lock id still alive
 	Policy      string  `json:"policy"`
 	AdvanceP    float64 `json:"advance_p"`
 	Index       int     `json:"index"`
@@ -57,6 +58,7 @@ type staleObs struct {
 
 type result struct {
 	sc             scenario
+	siblingFailed  int
 	w              *lockh.World
 	s              *sched.Sched
 	deadlock       string
@@ -254,6 +256,29 @@ func runScenario(r *vrun.Run, sc scenario, keep bool) *result {
 					}
 				}()
 			}
+			if sc.Kind == "live" && sc.Sibling > 0 {
+				// the attempts come early in the hold so that their consequences show within it
+				wg.Add(1)
+				go func() {
+					defer wg.Done()
+					for i := 0; i < sc.Sibling; i++ {
+						lockh.Sleep(root, time.Duration(5+7*i)*time.Millisecond)
+						var err error
+						if i%2 == 0 {
+							err = hl.LockWithTimeout(root, time.Duration(15+10*i)*time.Millisecond)
+						} else {
+							err = hl.TryLock(root)
+						}
+						res.mu.Lock()
+						if err == nil {
+							res.notes = append(res.notes, "a second acquisition through the holder's own lock object succeeded")
+						} else {
+							res.siblingFailed++
+						}
+						res.mu.Unlock()
+					}
+				}()
+			}
 			if sc.Kind == "live" {
 				lockh.Sleep(root, time.Duration(sc.HoldPeriods)*lockh.Period)
 				res.mu.Lock()
@@ -339,6 +364,7 @@ func analyse(r *vrun.Run, res *result) {
 	nontrivial := false
 	r.Obs("scheduler_steps", int64(res.s.Steps))
 	r.Obs("heartbeat_and_dir_stamps", w.Stamps)
+	r.Obs("failed_attempts_on_the_holders_own_lock_object", int64(res.siblingFailed))
 	r.ObsSet("policies", sc.Policy)
 	switch sc.Kind {
 	case "live":
@@ -535,7 +561,7 @@ func main() {
 				n = r.Pick(1, 4)
 			}
 			for k := 0; k < n; k++ {
-				cases = append(cases, scenario{Kind: "live", HoldPeriods: h, Observers: o, Acquire: acq[(k+o)%3], Previous: k % 2, Takeover: k%3 == 2, Policy: pols[k%2], AdvanceP: []float64{0.2, 0.5}[k%2], Stream: "live"})
+				cases = append(cases, scenario{Kind: "live", HoldPeriods: h, Observers: o, Acquire: acq[(k+o)%3], Previous: k % 2, Takeover: k%3 == 2, Sibling: []int{0, 0, 1, 3}[(k+h)%4], Policy: pols[k%2], AdvanceP: []float64{0.2, 0.5}[k%2], Stream: "live"})
 			}
 		}
 	}
